@@ -1236,6 +1236,15 @@ impl Exec {
                 ab.n = [0, 0];
                 if let Some(m) = &self.rhs[i] {
                     self.rts[i] = Some(m.ss.split());
+                } else if self.cfg.record && !self.cfg.crypto_oracle {
+                    // transport reference keyed with the keys the implementation actually installed
+                    // (seen by the RecordingCipher): conformance of everything *after* Split() -
+                    // nonce layout, REKEY - is then judged independently of the handshake.
+                    let alg = self.proto.cipher;
+                    let k = |o| self.logs[i].current_key(o);
+                    if let (Some(k1), Some(k2)) = (k(1), k(2)) {
+                        self.rts[i] = Some((rs::CipherState { alg, k: Some(k1), n: 0 }, rs::CipherState { alg, k: Some(k2), n: 0 }));
+                    }
                 }
             },
             Ok(Err(e)) => {
